@@ -12,10 +12,9 @@ func init() {
 			"sequences have at least one residue and are upper case; lower case is outside the quantifier (match/mismatch compares raw characters)",
 			"which built-in matrix applies: a pair drawn as protein that contains a letter which is no nucleotide code (Q,E,I,L,F,P,Z) is scored with BLOSUM62, a pair drawn as DNA with EDNAFULL; a protein pair made only of letters that are nucleotide codes too is open: either matrix, or a refusal when a letter is outside EDNAFULL, is accepted and counted as ambiguous",
 			"match/mismatch/gap counts are read as: identical residues / different residues / columns holding a gap",
-			"a case whose only failure is the listed finding sw-border-gap-state (props/c09/FINDINGS.md; recognised by an explicit model of the border shortcut and by the reported score being that model's optimum) is not judged on optimality while KNOWN_FINDINGS.txt lists the key; it is counted under excluded_known",
 			"absence of violations is established on the explored cases only; sub-spaces (a) are enumerated completely",
 		},
-		LevelText: "Bounded-exhaustive enumeration plus generated-input search against a reference model: all ordered pairs up to length 4 over {A,C} x 54 schemes (48 600 cases; thorough: up to length 5 over {A,C,G}, 7.1 million), all 832 matrix entries, and ~240 000 (quick) to ~10 million (thorough) random related pairs and command executions, each judged by a validity predicate and by exact comparison with an independent Gotoh optimum (itself cross-checked by brute-force enumeration for lengths <= 3). Shows absence of violations on what was explored; the enumerated sub-spaces are complete.",
+		LevelText: "Bounded-exhaustive enumeration plus generated-input search against a reference model: all ordered pairs up to length 4 over {A,C} x 54 schemes (48 600 cases; thorough: up to length 5 over {A,C,G}, 7.1 million), all 832 matrix entries, and ~180 000 (quick) to ~8 million (thorough) random related pairs and command executions, each judged by a validity predicate and by exact comparison with an independent Gotoh optimum (itself cross-checked by brute-force enumeration for lengths <= 3). Shows absence of violations on what was explored; the enumerated sub-spaces are complete.",
 		LevelNote: "trusts the harness's Gotoh program (cross-checked by enumeration up to length 3), its typed copies of NUC.4.4/BLOSUM62, and its readers of the FASTA output and of the sw log",
 		Technique: "bounded-exhaustive enumeration + property-based testing (rapid): reference dynamic program, brute-force enumeration, validity predicate; command-line differential",
 		DesignRef: "DESIGN.md section 5, C09",
@@ -23,10 +22,9 @@ func init() {
 			{Name: "exhaustive", Test: "^TestExhaustive$", Quick: 1, Thorough: 1},
 			{Name: "exhaustive-matrix", Test: "^TestExhaustiveMatrix$", Quick: 1, Thorough: 1},
 			{Name: "matrix-entries", Test: "^TestMatrixEntries$", Quick: 1, Thorough: 1},
-			{Name: "known", Test: "^TestKnownFindings$", Quick: 1, Thorough: 1},
-			{Name: "random", Test: "^TestRandom$", Quick: 200000, Thorough: 800000, Shards: 12},
-			{Name: "inputs", Test: "^TestInputsUnmodified$", Quick: 40000, Thorough: 300000, Shards: 2},
-			{Name: "cli", Test: "^TestCLI$", Quick: 1500, Thorough: 5000, Shards: 4},
+			{Name: "random", Test: "^TestRandom$", Quick: 150000, Thorough: 600000, Shards: 12},
+			{Name: "inputs", Test: "^TestInputsUnmodified$", Quick: 30000, Thorough: 300000, Shards: 2},
+			{Name: "cli", Test: "^TestCLI$", Quick: 1200, Thorough: 5000, Shards: 4},
 		},
 	})
 }
